@@ -730,6 +730,7 @@ def main():
     from vf.sandbox import run_extra as _run_extra
     from vf.common import seed as _seed, tier as _tier
     _run_extra(run, "vf.history:h_cg_reuse", [{"seed": _seed(), "idx": _i} for _i in range(2400 if _tier() == "thorough" else 240)], cpu_budget=60, kind_prefix="history: ")
+    _run_extra(run, "vf.history:h_ucg_twice", [{"seed": _seed(), "idx": _i} for _i in range(1600 if _tier() == "thorough" else 160)], cpu_budget=60, kind_prefix="history: ")
     return run.finish()
 
 
